@@ -31,7 +31,11 @@ func init() {
 		"(R4) field-guard consistency: a field of a mutex-carrying struct that is written outside constructors is accessed with that struct's mutex held at every access; "+
 		"(R5) a goroutine/errgroup body never assigns to, or map-updates, a variable captured by reference without a lock when several instances run (created in a loop) or the creator touches it before the join; per-index element slots are accepted; "+
 		"(R6) inside a mutex-carrying type whose channels are closed under the mutex, every send/close on a channel happens under it (send-vs-close exclusion).",
-		func(c *Ctx) { runLockRules(c, "C20", c20Scope, true) })
+		func(c *Ctx) {
+			runLockRules(c, "C20", c20Scope, true)
+			// (R7) handles derived from one another that share guarded state share the lock object
+			checkSharedStateSharedLock(c, "C20.R7 shared-state-shared-lock", c20Scope, 1)
+		})
 }
 
 // runLockRules is shared by C20 / C14 / C17 / C18 with different scopes.
